@@ -90,6 +90,10 @@ class AccessMonitor:
     def on_stat(self, name, path):
         if self.in_canary(path):
             callee, req = self.stack_callee()
+            if req and str(path).endswith(".ckl"):
+                # require looking for the module file it was asked for (the module path may point anywhere)
+                self.counts["allowed"] += 1
+                return
             self.counts["stat_in_canary"] += 1
             self.record("os." + name, str(path), False, callee)
 
@@ -102,7 +106,7 @@ class AccessMonitor:
                 return                     # not caused by interpreter code (harness, import system)
             sp = str(path)
             write = mode is not None and any(c in str(mode) for c in "wax+")
-            if req and not write and not self.in_canary(path):
+            if req and not write and (not self.in_canary(path) or sp.endswith(".ckl")):
                 # module source read by require: bundled module, ~/.ckl/modules or the module path
                 self.counts["allowed"] += 1
                 self.record("open", sp, True, callee)
